@@ -1,15 +1,19 @@
 package props
 
 import (
+	"context"
 	"fmt"
 	"sort"
 	"strings"
 
 	"google.golang.org/protobuf/proto"
+	"google.golang.org/protobuf/reflect/protoreflect"
+	"google.golang.org/protobuf/types/descriptorpb"
 
 	"larking.io/larking"
 
 	"verif/dyn"
+	"verif/env"
 	"verif/explore"
 	tmpl "verif/ref/template"
 	"verif/report"
@@ -169,7 +173,7 @@ func (s *routeSchema) newMuxSteps(rules []boundRule, nonEmpty bool, res *c16Resu
 
 func runC16(c *Ctx) {
 	r := c.Run
-	r.Rule("(a) every template with 1..2 (thorough 3) segments over literals {a,bb,a.b,a-b,v1}, variable forms incl. nested field paths, verbs; (b) every single-character edit (delete/insert/replace from \"{}=/*:.a\") of those, classified by the reference parser; (c) every body × response_body selector; (d) nested additional bindings, and rule sets that fail on a later binding after valid bindings were placed at or below existing nodes; (e) conflicting bindings (same path: same verb, '*' vs verb, verb vs '*', re-declared implicit path after and before its owner is registered, across services and inside one service) — each on an empty mux and on a mux already serving another service, from service config and from annotations; distinct = (expectation class, outcome) × template shape")
+	r.Rule("(a) every template with 1..2 (thorough 3) segments over literals {a,bb,a.b,a-b,v1}, variable forms incl. nested field paths, verbs; (b) every single-character edit (delete/insert/replace from \"{}=/*:.a\") of those, classified by the reference parser; (c) every body × response_body selector; (d) nested additional bindings, and rule sets that fail on a later binding after valid bindings were placed at or below existing nodes; (f) a second owner of an already-served method whose descriptor is another revision (same, new valid, and six kinds of invalid rule sets); (e) conflicting bindings (same path: same verb, '*' vs verb, verb vs '*', re-declared implicit path after and before its owner is registered, across services and inside one service) — each on an empty mux and on a mux already serving another service, from service config and from annotations; distinct = (expectation class, outcome) × template shape")
 	r.Assume("grey zone (either outcome, but no panic and atomic): nested variables, literals/idents not starting with a letter, '**' not last, a field bound twice, variables on message/repeated/map fields, scalar body / non-message response_body selectors, '*'-kind vs verb conflicts")
 
 	schema, err := newRouteSchemaMulti("vt", 2)
@@ -308,6 +312,7 @@ func runC16(c *Ctx) {
 	c16Selectors(c, schema)
 	c16Conflicts(c, schema)
 	c16ImplicitBeforeOwner(c, schema)
+	c16SecondOwnerRevision(c)
 }
 
 func tmplClassOK(t tmpl.T) bool { return len(t.Segs) > 0 }
@@ -631,6 +636,125 @@ func c16ImplicitBeforeOwner(c *Ctx, schema *routeSchema) {
 	}
 }
 
+// c16SecondOwnerRevision: a method that is already served gets a second owner whose
+// descriptor is a different revision of the service (as a redeployed back-end offers
+// through reflection; all owners here are scripted back-ends registered with RegisterConn): the second registration's own rules are checked and bound like any
+// others - a valid new binding routes, an invalid one is rejected with an error and nothing
+// of it stays.
+func c16SecondOwnerRevision(c *Ctx) {
+	r := c.Run
+	msgs := []*descriptorpb.DescriptorProto{
+		dyn.Msg("Req", dyn.Str("s", 1), dyn.Str("t", 2)),
+		dyn.Msg("Rsp", dyn.Str("s", 1)),
+	}
+	build := func(fname string, rule *dyn.Rule, withOther bool) protoreflect.FileDescriptor {
+		svcs := []dyn.Service{{Name: "R", Methods: []dyn.Method{{Name: "M1", In: "Req", Out: "Rsp", Rule: rule}}}}
+		if withOther {
+			svcs = []dyn.Service{{Name: "Other", Methods: []dyn.Method{{Name: "M1", In: "Req", Out: "Rsp", Rule: rule}}}}
+		}
+		f := dyn.File{Name: fname, Pkg: "vr", Messages: msgs, Services: svcs}
+		fd, _, err := f.Build()
+		if err != nil {
+			panic(err)
+		}
+		return fd
+	}
+	v1 := build("vr/r_v1.proto", &dyn.Rule{Kind: "get", Path: "/rev/one/{s}"}, false)
+	other := build("vr/other.proto", &dyn.Rule{Kind: "get", Path: "/rev/taken/{s}"}, true)
+	type rev struct {
+		name string
+		rule *dyn.Rule
+		exp  string   // accept | reject
+		live []string // GET paths that must reach R.M1 afterwards
+	}
+	revs := []rev{
+		{"same rule", &dyn.Rule{Kind: "get", Path: "/rev/one/{s}"}, "accept", []string{"/rev/one/x"}},
+		{"new valid binding", &dyn.Rule{Kind: "get", Path: "/rev/two/{s}"}, "accept", []string{"/rev/one/x", "/rev/two/x"}},
+		{"new valid binding with additional bindings", &dyn.Rule{Kind: "get", Path: "/rev/two/{s}", Add: []dyn.Rule{{Kind: "get", Path: "/rev/three/{t}"}}}, "accept", []string{"/rev/one/x", "/rev/two/x", "/rev/three/x"}},
+		{"malformed template", &dyn.Rule{Kind: "get", Path: "/rev/{s"}, "reject", []string{"/rev/one/x"}},
+		{"unknown field path", &dyn.Rule{Kind: "get", Path: "/rev/two/{zz}"}, "reject", []string{"/rev/one/x"}},
+		{"unresolvable body selector", &dyn.Rule{Kind: "post", Path: "/rev/two", Body: "zz"}, "reject", []string{"/rev/one/x"}},
+		{"nested additional bindings", &dyn.Rule{Kind: "get", Path: "/rev/two/{s}", Add: []dyn.Rule{{Kind: "get", Path: "/rev/three/{s}", Add: []dyn.Rule{{Kind: "get", Path: "/rev/four/{s}"}}}}}, "reject", []string{"/rev/one/x"}},
+		{"binding of another method", &dyn.Rule{Kind: "get", Path: "/rev/taken/{s}"}, "reject", []string{"/rev/one/x"}},
+		{"valid binding then invalid additional binding", &dyn.Rule{Kind: "get", Path: "/rev/two/{s}", Add: []dyn.Rule{{Kind: "get", Path: "/rev/three/{zz}"}}}, "reject", []string{"/rev/one/x"}},
+	}
+	ctx := context.Background()
+	for i, rv := range revs {
+		v2 := build(fmt.Sprintf("vr/r_v2_%d.proto", i), rv.rule, false)
+		m, err := larking.NewMux()
+		if err != nil {
+			panic(err)
+		}
+		var nFirst, nSecond, nOther int
+		mkBackend := func(name string, fd protoreflect.FileDescriptor, svc string, n *int) *env.Backend {
+			b := env.NewBackend(name, []protoreflect.FileDescriptor{fd}, []string{svc})
+			b.Unary = func(ctx context.Context, method string, req, reply proto.Message) error { *n++; return nil }
+			return b
+		}
+		bo, b1, b2 := mkBackend("other", other, "vr.Other", &nOther), mkBackend("first", v1, "vr.R", &nFirst), mkBackend("second", v2, "vr.R", &nSecond)
+		if err := m.RegisterConn(ctx, bo.Conn()); err != nil {
+			panic(err)
+		}
+		if err := m.RegisterConn(ctx, b1.Conn()); err != nil {
+			panic(err)
+		}
+		before := larking.VerifFingerprint(m.VerifSnapshot())
+		var rerr error
+		p, txt := guard(func() { rerr = m.RegisterConn(ctx, b2.Conn()) })
+		after := larking.VerifFingerprint(m.VerifSnapshot())
+		r.Eval(1)
+		cs := map[string]any{"kind": "second-owner-revision", "revision": rv.name, "rule": rv.rule}
+		key := "second-owner-revision " + rv.name
+		closeAll := func() { bo.Conn().Close(); b1.Conn().Close(); b2.Conn().Close() }
+		outcome := "accepted"
+		switch {
+		case p:
+			outcome = "panic"
+			r.Violation(report.Violation{Oracle: "register-panic", Key: "register-panic " + key, Case: cs, Note: txt})
+			closeAll()
+			continue
+		case rerr != nil:
+			outcome = "rejected"
+		}
+		r.Outcome("second-owner-revision:" + rv.exp + "->" + outcome)
+		r.Distinct("second-owner-revision|" + rv.name + "|" + outcome)
+		if rv.exp == "accept" && rerr != nil {
+			r.Violation(report.Violation{Oracle: "valid-template-rejected", Key: "valid-rule-rejected " + key, Case: cs, Note: rerr.Error()})
+			closeAll()
+			continue
+		}
+		if rv.exp == "reject" && rerr == nil {
+			r.Violation(report.Violation{Oracle: "invalid-template-accepted", Key: "invalid-rule-accepted " + key, Case: cs, Note: "the second owner's rule set was accepted without being checked"})
+		}
+		if rerr != nil && before != after {
+			r.Violation(report.Violation{Oracle: "rejection-not-atomic", Key: "rejection-not-atomic " + key, Case: cs})
+		}
+		// routes that must be live, probed 6 times each (the handler pick is random)
+		for _, path := range rv.live {
+			for k := 0; k < 6; k++ {
+				nFirst, nSecond = 0, 0
+				sr := serveSimple(m, "GET", path, "")
+				r.Eval(1)
+				if sr.Panicked || nFirst+nSecond != 1 {
+					r.Violation(report.Violation{Oracle: "accepted-template-does-not-route", Key: "second-owner-route-dead " + key + " " + path, Case: cs, Note: fmt.Sprintf("GET %s -> status=%d dispatched=%d %s", path, sr.Code, nFirst+nSecond, sr.Panic)})
+					break
+				}
+				if rerr != nil && nSecond != 0 {
+					r.Violation(report.Violation{Oracle: "rejection-damaged-routes", Key: "rejected-owner-serves " + key, Case: cs, Note: "the back-end whose registration was rejected received a request"})
+					break
+				}
+			}
+		}
+		// the other method's binding stays its own
+		nOther = 0
+		if sr := serveSimple(m, "GET", "/rev/taken/x", ""); sr.Panicked || nOther != 1 {
+			r.Violation(report.Violation{Oracle: "rejection-damaged-routes", Key: "other-method-route-lost " + key, Case: cs, Note: fmt.Sprintf("GET /rev/taken/x -> status=%d dispatched=%d", sr.Code, nOther)})
+		}
+		r.Eval(1)
+		closeAll()
+	}
+}
+
 func replayC16(c *Ctx, v report.Violation) {
 	var tc c16Case
 	if !remarshal(v.Case, &tc) {
@@ -644,12 +768,16 @@ func replayC16(c *Ctx, v report.Violation) {
 	sub := *c
 	run := report.NewRun("C16", "quick", 0, "exploration")
 	sub.Run = run
+	if strings.Contains(v.Key, "second-owner") || strings.Contains(v.Key, "rejected-owner-serves") || strings.Contains(v.Key, "other-method-route-lost") {
+		tc.Kind = "conflict"
+	}
 	switch tc.Kind {
 	case "selector", "nested":
 		c16Selectors(&sub, schema)
 	case "conflict":
 		c16Conflicts(&sub, schema)
 		c16ImplicitBeforeOwner(&sub, schema)
+		c16SecondOwnerRevision(&sub)
 	default:
 		exp, _, why := c16ExpectTemplate(tc.Rule.Path)
 		fmt.Printf("replay: reference expectation=%s (%s)\n", exp, why)
